@@ -388,12 +388,16 @@ func c07Arm64(r *Report, p *Prog, fn *ssa.Function, ret *ssa.Return, ps *pathSym
 	name := "[arm64] sm4.(*sm4GcmAsm).Open"
 	var g *Guard
 	for i := range ps.Guards {
-		if strings.HasPrefix(ps.Guards[i].Text, "ConstantTimeCompare(") && strings.HasSuffix(ps.Guards[i].Text, " == 1") {
+		tx := ps.Guards[i].Text
+		if strings.HasPrefix(tx, "ConstantTimeCompare(") && strings.HasSuffix(tx, " == 1") {
+			g = &ps.Guards[i]
+		}
+		if strings.HasPrefix(tx, "Equal(") && strings.HasSuffix(tx, ")") { // bytes.Equal: a full comparison too (its timing is C09's business)
 			g = &ps.Guards[i]
 		}
 	}
 	if g == nil {
-		r.Viol("RELEASE-AFTER-MATCH", name, p.InstrPos(ret), "the accepting return is not dominated by subtle.ConstantTimeCompare(...) == 1; guards: "+strings.Join(ps.GuardTexts(), " ; "))
+		r.Viol("RELEASE-AFTER-MATCH", name, p.InstrPos(ret), "the accepting return is not dominated by a full comparison of the expected and the received tag (subtle.ConstantTimeCompare(...) == 1 or bytes.Equal); guards: "+strings.Join(ps.GuardTexts(), " ; "))
 		return
 	}
 	kind, _ := rejectKind(g, nil)
@@ -419,8 +423,11 @@ func c07Arm64(r *Report, p *Prog, fn *ssa.Function, ret *ssa.Return, ps *pathSym
 	}
 	r.Count("dst_writers_arm64", n)
 	// compared slices have length tagSize
-	bo := g.If.Cond.(*ssa.BinOp)
-	if call, ok := bo.X.(*ssa.Call); ok {
+	var cmpCall ssa.Value = g.If.Cond
+	if bo, isB := g.If.Cond.(*ssa.BinOp); isB {
+		cmpCall = bo.X
+	}
+	if call, ok := cmpCall.(*ssa.Call); ok {
 		env := NewLinEnv(p, fn)
 		want := env.Int(tagSizeLoad(fn))
 		for i, a := range call.Call.Args {
